@@ -165,7 +165,13 @@ pub fn absorb(out: &mut Outcome, prop: &str, sc_cfg: &Config, ops: &[Op], t: &Tr
                 first = true;
                 last_chunk = cfg.chunk;
             }
-            (_, Op::Bad { .. }) => out.cov.fault("F3_malformed_call", 1),
+            (_, Op::Bad { .. }) => {
+                out.cov.fault("F3_malformed_call", 1);
+                if s.rt {
+                    out.cov.fault("F8_heap_armed_call", 1);
+                }
+            }
+            (_, Op::SetMask { .. }) => out.cov.fault("F7_mask_change", 1),
             (_, Op::BadRatio { .. }) | (_, Op::BadChunk { .. }) => out.cov.fault("F4_boundary_control", 1),
             _ => {}
         }
@@ -262,7 +268,14 @@ fn gen_valid_history(prop: &str, seed: u64, tier: Tier) -> Scenario {
     sc.signal = gen_signal(&mut rng);
     let n = ops_budget(&sc.config, tier_budget(tier), 8, if tier == Tier::Quick { 60 } else { 200 }, &mut rng);
     let mix_ = OpMix::swarm(&mut rng, n);
-    let (p, ops, t) = gen_history(&mut rng, &sc.config, &mix_);
+    let (p, mut ops, t) = gen_history(&mut rng, &sc.config, &mix_);
+    // a third of the runs: the caller changes its mask mid-stream; C09 also sees rejected calls
+    // (a malformed process_into_buffer call is still a real-time call)
+    if sc.config.channels > 0 && rng.chance(0.33) {
+        let p_mask = rng.uniform(0.02, 0.2);
+        let p_bad = if prop == "C09" { rng.uniform(0.0, 0.15) } else { 0.0 };
+        sprinkle(&mut rng, &sc.config, &mut ops, p_mask, p_bad);
+    }
     sc.profile = p;
     sc.ops = ops;
     sc.sim_seconds = t;
@@ -305,6 +318,24 @@ fn gen_c07(seed: u64, tier: Tier) -> Scenario {
     }
     sc.ops = gen_ops_uniform(&mut rng, &sc.config, &m);
     sc.profile = if long { "long-small-chunks".into() } else { "chunk-schedule".into() };
+    // a quarter of the async runs: the stream was used at other ratios before and then reset; the accounting
+    // of the constant-ratio stream starts at the reset
+    if sc.config.kind.is_async() && !long && rng.chance(0.25) {
+        if sc.config.max_rel <= 1.0 {
+            sc.config.max_rel = rng.log_uniform(1.05, 4.0);
+        }
+        let mut pre = Vec::new();
+        for _ in 0..rng.usize_in(1, 3) {
+            pre.push(Op::SetRatio { rel: gen_rel(&mut rng, &sc.config, true), ramp: rng.chance(0.5), relative_api: rng.chance(0.5) });
+            for _ in 0..rng.usize_in(0, 3) {
+                pre.push(Op::process());
+            }
+        }
+        pre.push(Op::Reset);
+        pre.extend(sc.ops.drain(..));
+        sc.ops = pre;
+        sc.profile = "used-then-reset+chunk-schedule".into();
+    }
     sc
 }
 
@@ -362,7 +393,20 @@ fn eval_c07(sc: &Scenario) -> Outcome {
     let bound = r * (l + 1.0 / r + 3.0) + 3.0;
     let (blk_in, _blk_out) = fft_blocks(cfg);
     let mut worst = 0.0f64;
+    let mut clean = true;
     for s in &t.steps {
+        match (&sc.ops[s.op], &s.res) {
+            (Op::SetRatio { .. }, StepRes::CtlOk) => clean = false,
+            (Op::Reset, StepRes::Reset) => {
+                clean = true;
+                tin = 0;
+                tout = 0;
+            }
+            _ => {}
+        }
+        if !clean {
+            continue;
+        }
         if let StepRes::Proc { n_in, n_out } = s.res {
             tin += n_in as u64;
             tout += n_out as u64;
